@@ -62,7 +62,17 @@ func init() {
 				}
 				c.Check(okStart, ks.key("adv-scan-start@"+fn), c.Pos(a.Instr), "scan starts at advancedPeerTSNAckPoint+1", "scan does not start right after the current skip point")
 			}
-			c.Check(nScan == 2, "adv-scan-sites", "", "two scan sites (SACK and T3)", fmt.Sprintf("%d scan sites", nScan))
+			// both loss-recovery entry points reach a scan (inline or through a shared helper)
+			for _, owner := range []string{"Association.finishAcknowledgement", "Association.onRetransmissionTimeout"} {
+				reached := false
+				for _, a := range c.P.Writes(adv) {
+					if !IsLoadOf(cum)(a.Val) && c.P.FuncName(a.Fn) != "createAssociationFromConfigWithTsn" && reachesFn(c.Fn(owner), a.Fn, 2) {
+						reached = true
+					}
+				}
+				c.Check(reached, "adv-scan-reached@"+owner, c.P.Pos(c.Fn(owner).Pos()), "the skip-point scan is reached from here", "no skip-point scan reachable from "+owner)
+			}
+			c.Check(nScan >= 1, "adv-scan-sites", "", fmt.Sprintf("%d scan site(s)", nScan), "no scan site")
 		}})
 
 	register(&Rule{ID: "C07.R2", Props: []string{"C07"}, Engine: "E2-dataflow",
@@ -223,7 +233,16 @@ func init() {
 				}
 				c.Check(pre, ks.key("flag-after-scan@"+fn), c.Pos(a.Instr), "the skip-point scan precedes the flag", "flag raised without first advancing the skip point")
 			}
-			c.Check(n == 2, "flag-sites", "", "raised on SACK and on T3", fmt.Sprintf("%d sites", n))
+			for _, owner := range []string{"Association.finishAcknowledgement", "Association.onRetransmissionTimeout"} {
+				reached := false
+				for _, a := range c.P.Writes(will) {
+					if IsConstBool(true)(a.Val) && reachesFn(c.Fn(owner), a.Fn, 2) {
+						reached = true
+					}
+				}
+				c.Check(reached, "flag-reached@"+owner, c.P.Pos(c.Fn(owner).Pos()), "the FORWARD-TSN flag can be raised from here", "the FORWARD-TSN flag is not raised on this loss-recovery path")
+			}
+			c.Check(n >= 1, "flag-sites", "", fmt.Sprintf("%d site(s)", n), "no site raises the flag")
 			// the SACK-side and T3-side blocks are entered iff partial reliability is enabled
 			pre := c.Fn("Association.partialReliabilityEnabled")
 			uF, uI := c.field("Association", "useForwardTSN"), c.field("Association", "useIForwardTSN")
